@@ -7,15 +7,15 @@ package main
 
 import (
 	"context"
-	"runtime"
-	"sync"
 	"encoding/json"
 	"fmt"
 	"os"
 	"reflect"
+	"runtime"
 	"sort"
 	"strconv"
 	"strings"
+	"sync"
 	"time"
 
 	implchord "go.miragespace.co/specter/chord"
@@ -48,6 +48,25 @@ type Scenario struct {
 	Gates   []string    `json:"gates"`
 	Fingers bool        `json:"fingers"`
 	Steps   []Step      `json:"steps"`
+	// CritParks: an operation may also park at the sub-gate inside RequestToJoin, i.e. while it holds surrogateMu (lock-order
+	// scenarios: what every other operation on that node does meanwhile is then run as an operation of its own, which may block)
+	CritParks bool `json:"critparks"`
+}
+
+// inRequestToJoin: the calling goroutine is inside RequestToJoin (it holds surrogateMu from the rtj:lock gate on)
+func inRequestToJoin() bool {
+	pcs := make([]uintptr, 48)
+	n := runtime.Callers(2, pcs)
+	frames := runtime.CallersFrames(pcs[:n])
+	for {
+		f, more := frames.Next()
+		if strings.HasSuffix(f.Function, ".RequestToJoin") {
+			return true
+		}
+		if !more {
+			return false
+		}
+	}
 }
 
 // inCriticalSection reports whether the calling goroutine is inside a section of the membership code that holds
@@ -104,18 +123,26 @@ func (r *nodeReg) get(id uint64) (*implchord.LocalNode, bool) {
 }
 
 type runner struct {
-	si    int
-	sc    Scenario
-	r     *ring.Ring
-	sched *verifkit.Sched
-	ops   map[string]*verifkit.Op
-	byID  *nodeReg
-	never chan struct{}
+	si       int
+	sc       Scenario
+	r        *ring.Ring
+	sched    *verifkit.Sched
+	ops      map[string]*verifkit.Op
+	byID     *nodeReg
+	never    chan struct{}
+	nblocked int
+	hung     bool
 }
 
 func (x *runner) emit(i int, st Step, from, to string, res any) {
+	if to == "blocked" { // once two waits have run into the step limit the scenario has made its point: the remaining ones are cut short
+		x.nblocked++
+		if x.nblocked >= 2 {
+			x.sched.StepWait = 500 * time.Millisecond
+		}
+	}
 	verifkit.Emit(map[string]any{"t": "step", "s": x.si, "i": i, "do": st.Do, "op": st.Op, "kind": st.Kind,
-		"n": x.rankOfNode(st.N), "from": from, "to": to, "res": res, "state": x.r.Snapshot(x.sc.Fingers, false)})
+		"n": x.rankOfNode(st.N), "from": from, "to": to, "res": res, "state": x.snapshot(x.sc.Fingers, false)})
 }
 
 func (x *runner) rankOfNode(name string) int {
@@ -150,6 +177,12 @@ func (x *runner) startOp(st Step) func() any {
 	case "stabilize": // one round of the periodic task as an operation of its own: it parks between computing and installing its list
 		n := x.r.Node(st.N)
 		return func() any { return ring.ErrClass(n.VerifStabilize()) }
+	case "checkpred": // maintenance as operations: they may have to wait for a lock another (parked) operation holds
+		n := x.r.Node(st.N)
+		return func() any { return ring.ErrClass(n.VerifCheckPred()) }
+	case "fixfinger":
+		n := x.r.Node(st.N)
+		return func() any { return ring.ErrClass(n.VerifFixFinger()) }
 	case "put":
 		n, k := x.r.Node(st.At), x.r.Keys[st.K]
 		return func() any { return ring.ErrClass(n.Put(ctx, k, []byte(st.V))) }
@@ -196,18 +229,57 @@ func (x *runner) startOp(st Step) func() any {
 	panic("unknown op kind " + st.Kind)
 }
 
-func (x *runner) maint(i int, st Step) {
-	n := x.r.Node(st.N)
-	var err error
-	switch st.Do {
-	case "stabilize":
-		err = n.VerifStabilize()
-	case "checkpred":
-		err = n.VerifCheckPred()
-	case "fixfinger":
-		err = n.VerifFixFinger()
+// snapshot: the projection takes the nodes' read locks; while an operation is blocked (possibly for ever, holding a lock) it is
+// taken in a goroutine of its own and given up after a while (the state is then reported as unavailable)
+func (x *runner) snapshot(fingers, hist bool) any {
+	if !x.anyBlocked() {
+		return x.r.Snapshot(fingers, hist)
 	}
-	x.emit(i, st, "", "", ring.ErrClass(err))
+	ch := make(chan any, 1)
+	go func() { ch <- x.r.Snapshot(fingers, hist) }()
+	select {
+	case v := <-ch:
+		return v
+	case <-time.After(2 * time.Second):
+		return map[string]any{}
+	}
+}
+
+func (x *runner) anyBlocked() bool {
+	for _, op := range x.ops {
+		if op.Blocked() {
+			return true
+		}
+	}
+	return false
+}
+
+func (x *runner) maint(i int, st Step) {
+	if x.hung { // an earlier maintenance call never returned: its goroutine may hold locks
+		x.emit(i, st, "", "skipped", "a maintenance call hangs")
+		return
+	}
+	n := x.r.Node(st.N)
+	done := make(chan error, 1)
+	go func() {
+		var err error
+		switch st.Do {
+		case "stabilize":
+			err = n.VerifStabilize()
+		case "checkpred":
+			err = n.VerifCheckPred()
+		case "fixfinger":
+			err = n.VerifFixFinger()
+		}
+		done <- err
+	}()
+	select {
+	case err := <-done:
+		x.emit(i, st, "", "", ring.ErrClass(err))
+	case <-time.After(8 * time.Second): // maintenance is a handful of in-process calls: this one will not return
+		x.hung = true
+		x.emit(i, st, "", "hung", "maintenance call did not return within 8 s")
+	}
 }
 
 func (x *runner) liveNames() []string {
@@ -244,6 +316,10 @@ func (x *runner) run() {
 				if strings.HasPrefix(p, "ns:") {
 					// sub-gate before a lifecycle transition: at most one park per protocol segment, never while a membership
 					// lock is held (every other operation on that node would block), only on the leave path
+					if x.sc.CritParks && op.SubParks == 0 && inRequestToJoin() {
+						op.SubParks++
+						return true
+					}
 					if op.SubParks > 0 || inCriticalSection() || !onLeavePath() {
 						return false
 					}
@@ -314,21 +390,33 @@ func (x *runner) run() {
 				}
 			}
 		case "stabilize", "checkpred", "fixfinger":
+			if x.anyBlocked() { // an operation hangs on a lock: a synchronous maintenance call could hang with it
+				x.emit(i, st, "", "skipped", "an operation is blocked")
+				continue
+			}
 			x.maint(i, st)
 		case "settle":
+			if x.anyBlocked() {
+				x.emit(i, st, "", "skipped", "an operation is blocked")
+				continue
+			}
 			rounds := st.Rounds
 			if rounds == 0 {
 				rounds = 12
 			}
 			stable := false
-			for rd := 0; rd < rounds && !stable; rd++ {
+			for rd := 0; rd < rounds && !stable && !x.hung; rd++ {
 				before := x.r.Snapshot(true, false)
 				for _, name := range x.liveNames() {
 					for _, do := range []string{"stabilize", "checkpred", "fixfinger"} {
 						x.maint(i, Step{Do: do, N: name})
 					}
 				}
-				stable = reflect.DeepEqual(before, x.r.Snapshot(true, false))
+				stable = !x.hung && reflect.DeepEqual(before, x.r.Snapshot(true, false))
+			}
+			if x.hung {
+				verifkit.Emit(map[string]any{"t": "hung", "s": x.si, "i": i})
+				continue
 			}
 			verifkit.Emit(map[string]any{"t": "settled", "s": x.si, "i": i, "stable": stable,
 				"state": x.r.Snapshot(true, true)})
@@ -343,7 +431,7 @@ func (x *runner) run() {
 	for name, op := range x.ops {
 		final[name] = map[string]any{"done": op.Done, "gate": x.gateName(op.Gate), "res": op.Result}
 	}
-	verifkit.Emit(map[string]any{"t": "end", "s": x.si, "ops": final, "state": x.r.Snapshot(true, true)})
+	verifkit.Emit(map[string]any{"t": "end", "s": x.si, "ops": final, "state": x.snapshot(true, true)})
 	verifhook.AtFn = nil
 }
 
